@@ -7,7 +7,7 @@ from ..spec import Clock, UNIT_NS, local_ok
 from ..canon import Snap, vec_diff, mat_diff, nodal_row_index
 
 PROPERTY = 'C08'
-CASES = {'quick': 144, 'thorough': 2500}
+CASES = {'quick': 432, 'thorough': 3456}
 BUDGET_S = {'quick': 240, 'thorough': 2400}
 RULE = ('case = a random portfolio P (windows in every placement, take periods partly outside the horizon) and P+ = P plus one element lying '
         'wholly outside the horizon (an asset of any class - also with coarse frequency -, an extra take period, orders) inserted first / in the '
@@ -17,7 +17,7 @@ RULE = ('case = a random portfolio P (windows in every placement, take periods p
         '(c) each take row\'s right-hand side equals v*covered/(e-s). Non-trivial: P has >=1 windowed asset or take period with flow; distinct = spec hashes.')
 ASSUMPTIONS = ['window membership of a step is decided by its start point (as documented for interval data)',
                'value tolerance 1e-5 (MIP 2e-4) relative; structural comparison exact']
-MIN_NONVACUOUS = {'quick': {'window.mapping_rows_inside': 200, 'window.dispatch_zero_outside': 60, 'inert.problem_unchanged': 90, 'inert.value_unchanged': 70, 'take.prorated_rhs': 25},
+MIN_NONVACUOUS = {'quick': {'window.mapping_rows_inside': 500, 'window.dispatch_zero_outside': 150, 'inert.problem_unchanged': 225, 'inert.value_unchanged': 175, 'take.prorated_rhs': 62},
                   'thorough': {'window.mapping_rows_inside': 4000, 'inert.problem_unchanged': 1500, 'take.prorated_rhs': 400}}
 
 
